@@ -177,7 +177,7 @@ def run(case, ctx):
     res = sut.generate(doc, cfg={"generate_all_tags": bool(case.get("all_tags")), "literal_enums": bool(case.get("literal"))})
     try:
         if res.exc is not None:
-            ctx.skip("generator_crashed")
+            ctx.violation("generator.completes", res.exc_site, repr(res.exc)[:300])   # a valid document: the crash itself breaks the property
             ctx.label("crash:" + res.exc_site["exc"])
             return
         if not res.accepted:
